@@ -183,11 +183,17 @@ def gen_malformed(r, keys, maxlen=60):
 
 
 # ------------------------------------------------------------------ flat schema cases
-KINDS = ["R", "I", "B", "S", "V", "N1", "N2", "N3", "K", "T3", "T4", "T2", "T5", "R!", "S!", "B!", "T3!", "U", "U", "L", "J", "W"]
+KINDS = ["R", "I", "B", "S", "V", "N1", "N2", "N3", "K", "T3", "T4", "T2", "T5", "R!", "S!", "B!", "T3!", "U", "U", "L", "J", "W", "Y3", "Y4"]
 
 
 def value_for(r, kind, good=True):
     kind = kind.rstrip("!")
+    if kind[0] == "Y":
+        k = r.randint(1, 3)
+        parts = [value_for(r, "T" + kind[1:], True) for _ in range(k)]
+        if good:
+            return r.choice([" ", "  ", "\t"]).join(parts)
+        return r.choice(["".join(parts) if k > 1 else parts[0] + "x", parts[0] + " " + value_for(r, "T" + kind[1:], False), "1 2 3", parts[0] + " ("])
     if kind[0] == "T":
         n = int(kind[1:])
         toks = [r.choice(NUMBER_TOKENS) for _ in range(n)]
@@ -366,6 +372,13 @@ def gen_nested_lines(r, items, depth, paths, path=()):
             continue
         ind = b"  " * depth + rws(r, 2, True) if r.random() < 0.3 else b"  " * depth
         kw = rcase(r, k.encode()) if r.random() < 0.3 else k.encode()
+        if isinstance(v, list) and depth == 0 and r.random() < 0.25:
+            # more than two instances of the same block keyword (the key_lookup loop of the parent)
+            for _ in range(r.randint(1, 2)):
+                extra = gen_nested_lines(r, v, depth + 1, [], path + (k,))
+                lines.append(ind + kw + b" {")
+                lines += extra
+                lines.append(b"  " * depth + b"}")
         if isinstance(v, list):
             inner = gen_nested_lines(r, v, depth + 1, [], path + (k,))
             if inner and len(inner) == 1 and b"{" not in inner[0] and r.random() < 0.4:
@@ -438,6 +451,21 @@ def gen_nested_case(r):
         i = r.randrange(len(lines) + 1)
         lines.insert(i, rws(r, 4, True) + r.choice([b"fooBar 1", b"widthh 0.5", b"x", b"atomNumbers_ 1 2",
                                                     b"fooBlock {\n  width 1\n}", b"fooBlock { width 1 }", b"group9 {\n  atomNumbers 1\n  fooBar 2\n}"]))
+    elif m < 0.89:
+        # text that is neither keyword nor value: after a closing brace, between a block keyword and its brace
+        idx_close = [i for i, l in enumerate(lines) if l.rstrip().endswith(b"}")]
+        idx_open = [i for i, l in enumerate(lines) if l.rstrip().endswith(b"{")]
+        if r.random() < 0.5 and idx_close:
+            tag = "junk-after-brace"
+            i = r.choice(idx_close)
+            lines[i] = lines[i].rstrip() + b" " + r.choice([b"junk", b"x 1", b"0.5", b"fooBar"])
+        elif idx_open:
+            tag = "junk-before-brace"
+            i = r.choice(idx_open)
+            l = lines[i].rstrip()
+            lines[i] = l[:-1].rstrip() + b" " + r.choice([b"junk", b"foo", b"1"]) + b" {"
+        else:
+            tag = "valid"
     elif m < 0.93:
         tag = "brace"
         idx = [i for i, l in enumerate(lines) if b"{" in l or b"}" in l]
